@@ -19,8 +19,8 @@ MANIFEST = {
     "text": ("Lean theorems over the executable model of UpnpProfileDevice's subscription life cycle (subscribe loop with "
              "rollback, renewal loop, per-round renewal with event-handler fallback, unsubscribe with task cancellation), "
              "parametrised by the constants and loop shapes extracted from profiles/profile.py on every run: all_or_nothing(+_trace), "
-             "clean_unsubscribe, clean_trace (the judge's clause monitors flag nothing on any model history), loop_yields, "
-             "failure_reported_once, wake_margin / renew_round_start / renew_round_step / deadline_le_expiry "
+             "clean_unsubscribe, clean_trace, report_trace (three of the judge's five clause monitors are proved to flag nothing on "
+             "any model history), loop_yields, failure_reported_once, wake_margin / renew_round_start / renew_round_step / deadline_le_expiry "
              "(renew_before_expiry_partial). The model is tied to the code "
              "by a differential check of whole timelines (hours of virtual time, scripted publisher reactions and latencies, "
              "unsubscribe injected at every distinct point of a run) and the Lean judge C12.ok is evaluated on the "
